@@ -76,7 +76,7 @@ def build(x):
     st.text = '#[verifier::reject_recursive_types(DeltaUpdate)]\n#[verifier::reject_recursive_types(OperatorChain)]\n' + st.text
     pieces.append(st)
     nx = x.method(F, 'IterationEnd', 'next', trait='Operator')
-    nx.sub('V-SUBST', r'self\.leader_sender\.as_ref\(\)', 'self.leader_sender.as_mut()', detail='R-CHAN: sender handle borrowed mutably (model of send takes &mut self)', must=True)
+    nx.sub('V-SUBST', r'self\.leader_sender\s*\.as_ref\(\)', 'self.leader_sender.as_mut()', detail='R-CHAN: sender handle borrowed mutably (model of send takes &mut self)', must=True)
     nx.sub('V-SUBST', r'let update = Default::default\(\);', 'let update = default_delta();', detail='Default::default() -> contracted stub returning delta_default()', must=True)
     nx.sub('V-SUBST', r'elem\.map\(\|_\| unreachable!\(\)\)', 'retype_flush_batch(elem)', detail='StreamElement::map with a never-called closure on FlushBatch -> contracted stub', must=True)
     nx.sub('V-ASSERT', r'_ => unreachable!\(\),', '_ => { rust_panic(); StreamElement::Terminate }', detail='unreachable!() arm -> rust_panic() (requires false)', must=True)
